@@ -9,6 +9,7 @@ CONSTANTS
   MaxLife = 2
   MaxDims = 1
   MaxSteps = 8
+  MaxGen = 0
   EmitActs = {"Open"}
   EmitRes = "any"
   EmitWhen = "always"
